@@ -933,3 +933,150 @@ func init() {
 	declining["bytes.IndexByte"] = true
 	declining["strings.IndexByte"] = true
 }
+
+// ---- strings.Cut / CutPrefix / CutSuffix (and the bytes versions) through the Split / prefix models ----
+
+func intrCut(e *Exec, st *State, fr *Frame, args []Val, in ssa.Instruction, rt types.Type) []callRes {
+	tup, ok := rt.(*types.Tuple)
+	if !ok || tup.Len() != 3 {
+		return nil
+	}
+	// SplitN(s, sep, 2) decides it: one part = not found
+	two := e.idx(2)
+	if !e.IntMode {
+		two = e.C.BVu(2, 64)
+	}
+	sliceT := types.NewSlice(tup.At(0).Type())
+	var rs []callRes
+	if _, isStr := args[0].(*StringVal); isStr {
+		if r := e.splitExact(st, []Val{args[0], args[1], two}, true, sliceT); r != nil {
+			rs = r
+		} else {
+			rs = intrSplitN(e, st, fr, []Val{args[0], args[1], two}, in, sliceT)
+		}
+	} else {
+		rs = e.splitExact(st, []Val{args[0], args[1], two}, true, sliceT)
+	}
+	if rs == nil {
+		return nil
+	}
+	var out []callRes
+	for _, r := range rs {
+		sl, ok := r.v.(*SliceVal)
+		if !ok || sl.Obj == 0 || !sl.Len.IsConst() {
+			return nil
+		}
+		av := e.sliceBacking(r.st, sl)
+		if av == nil || av.List == nil {
+			return nil
+		}
+		switch len(av.List) {
+		case 1:
+			out = append(out, callRes{r.st, TupleVal{av.List[0], e.zeroVal(r.st, tup.At(1).Type()), e.C.False()}})
+		case 2:
+			out = append(out, callRes{r.st, TupleVal{av.List[0], av.List[1], e.C.True()}})
+		default:
+			return nil
+		}
+	}
+	return out
+}
+
+func intrCutAffix(suffix bool) intrinsic {
+	return func(e *Exec, st *State, fr *Frame, args []Val, in ssa.Instruction, rt types.Type) []callRes {
+		s, ok1 := args[0].(*StringVal)
+		p, ok2 := args[1].(*StringVal)
+		if !ok1 || !ok2 {
+			return nil
+		}
+		c := e.C
+		var t *Term
+		if suffix {
+			t = e.suffixTerm(st, s, p)
+		} else {
+			t = e.prefixTerm(st, s, p)
+		}
+		if t == nil {
+			return nil
+		}
+		var r *StringVal
+		if suffix {
+			r = &StringVal{C: s.C, Off: s.Off, Len: c.Ite(t, c.Sub(s.Len, p.Len), s.Len)}
+		} else {
+			r = &StringVal{C: s.C, Off: c.Ite(t, c.Add(s.Off, p.Len), s.Off), Len: c.Ite(t, c.Sub(s.Len, p.Len), s.Len)}
+		}
+		return []callRes{{st, TupleVal{r, t}}}
+	}
+}
+
+// ---- a regular expression compiled once (package-level regexp.MustCompile of a constant) and matched later ----
+
+func intrRegexpCompile(withErr bool) intrinsic {
+	return func(e *Exec, st *State, fr *Frame, args []Val, in ssa.Instruction, rt types.Type) []callRes {
+		pat, ok := args[0].(*StringVal)
+		if !ok {
+			return nil
+		}
+		ps, isC := concreteString(pat)
+		if !isC {
+			return nil
+		}
+		var pt *types.Pointer
+		if withErr {
+			tup, ok := rt.(*types.Tuple)
+			if !ok {
+				return nil
+			}
+			pt, _ = tup.At(0).Type().(*types.Pointer)
+		} else {
+			pt, _ = rt.(*types.Pointer)
+		}
+		if pt == nil {
+			return nil
+		}
+		if e.regexObjs == nil {
+			e.regexObjs = map[int]string{}
+		}
+		id := e.newObj(st, &OpaqueVal{T: pt.Elem(), Name: "regexp"}, &ObjMeta{T: pt.Elem(), Fresh: true, Name: "regexp"})
+		e.regexObjs[id] = ps
+		p := &PtrVal{Obj: id, T: pt.Elem()}
+		if withErr {
+			return []callRes{{st, TupleVal{p, errNil(e)}}}
+		}
+		return []callRes{{st, p}}
+	}
+}
+
+func intrRegexpMatchMethod(e *Exec, st *State, fr *Frame, args []Val, in ssa.Instruction, rt types.Type) []callRes {
+	p, ok := args[0].(*PtrVal)
+	if !ok || e.regexObjs == nil {
+		return nil
+	}
+	pat, ok := e.regexObjs[p.Obj]
+	if !ok {
+		return nil
+	}
+	rs := intrRegexMatchString(e, st, fr, []Val{e.strConst(pat), args[1]}, in, rt)
+	var out []callRes
+	for _, r := range rs {
+		if tv, ok := r.v.(TupleVal); ok && len(tv) == 2 {
+			out = append(out, callRes{r.st, tv[0]})
+		} else {
+			return nil
+		}
+	}
+	return out
+}
+
+func init() {
+	for _, n := range []string{"strings.Cut", "bytes.Cut", "strings.CutPrefix", "strings.CutSuffix", "regexp.MustCompile", "regexp.Compile", "(*regexp.Regexp).MatchString"} {
+		declining[n] = true
+	}
+	intrinsics["strings.Cut"] = intrCut
+	intrinsics["bytes.Cut"] = intrCut
+	intrinsics["strings.CutPrefix"] = intrCutAffix(false)
+	intrinsics["strings.CutSuffix"] = intrCutAffix(true)
+	intrinsics["regexp.MustCompile"] = intrRegexpCompile(false)
+	intrinsics["regexp.Compile"] = intrRegexpCompile(true)
+	intrinsics["(*regexp.Regexp).MatchString"] = intrRegexpMatchMethod
+}
